@@ -907,7 +907,6 @@ def run(ctx):
                 ctx.count('history-aborted')
                 ctx.divergence('the harness could not complete a history: %s: %s' % (type(e).__name__, str(e)[:200]), {'schema': schema, 'population': population, 'history': hist},
                                model='history completes', impl=traceback.format_exc()[-600:])
-                del PENDING[:]; del LOADERS[:]
                 continue
             ctx.case({'schema': schema, 'history': hist[:5], 'len': len(hist)}, kind='oracle:five-strategies')
             for op, r in zip(hist, logs['default']):
